@@ -36,7 +36,9 @@ def distances(ctx, pts, a, b, family):
         ctx.fail('predicate', 'completes', 'linear_fit.shortest_distance_points/perpendicular_distance_points', case, repr(e)[:200])
         ctx.count(family, n=len(pts))
         return
-    scale = float(np.max(np.abs(pts)) + np.max(np.abs(a)) + np.max(np.abs(b)) + 1) ** 2
+    # rounding scale of the squared distances: the SPREAD of the configuration about a (the code subtracts a first; exact for these inputs),
+    # not the magnitude of the coordinates and not an absolute constant - tiny-scale and large-offset inputs are judged as sharply as unit ones
+    scale = float(np.max(np.abs(pts - a)) + np.max(np.abs(b - a)) + 1e-300) ** 2
     for i, p in enumerate(pts):
         q = F(d.call('geom', ['shortestSq', P(p), P(a), P(b)])[0])
         ctx.corr_checked += 1
@@ -49,7 +51,7 @@ def distances(ctx, pts, a, b, family):
             if not close(float(pdist[i]) ** 2, q, scale * 1e-3):
                 ctx.fail('predicate', 'perpendicular-distance-is-the-distance-to-the-line', 'linear_fit.perpendicular_distance_points', case, dict(i=i, impl_sq=float(pdist[i]) ** 2, model=float(q)))
     # integer-dtype arrays (what the package's own tests pass), also with byte-count sized values: same distances as the float64 copy
-    if np.all(pts == np.floor(pts)) and np.all(a == np.floor(a)) and np.all(b == np.floor(b)):
+    if '@' not in family and np.all(pts == np.floor(pts)) and np.all(a == np.floor(a)) and np.all(b == np.floor(b)):
         for shift in (0, 36):
             fI, aI, bI = (np.asarray(v).astype(np.int64) * (1 << shift) for v in (pts, a, b))
             fI[:, 0], aI[0], bI[0] = pts[:, 0].astype(np.int64), int(a[0]), int(b[0])      # only y is a byte count; x stays small
@@ -136,12 +138,25 @@ def triple(ctx, f, g, h, family):
     base = vals[(0, 1, 2)]
     q = F(d.call('geom', ['mengerSq', P(f), P(g), P(h)])[0])
     ctx.corr_checked += 1
-    if not close(base ** 2, q, 1e-6):
+    if not close(base ** 2, q, 0):
         ctx.fail('predicate', 'menger-curvature-is-the-reciprocal-circumradius', 'menger.menger_curvature', case, dict(impl_sq=base ** 2, model=float(q)))
     for perm, v in vals.items():
         if abs(v - base) > 1e-12 * (abs(v) + abs(base)) + 1e-300:
             ctx.fail('predicate', 'menger-symmetric-in-its-arguments', 'menger.menger_curvature', case, dict(perm=list(perm), value=v, base=base))
             break
+    if '@' not in family and all(float(c) == int(c) for pnt in (f, g, h) for c in pnt):
+        # integer-dtype points, also with large coordinates (byte counts, timestamps): same curvature as the float64 copy
+        for mul in (1, 1000, 1 << 20):
+            ai = [np.array([int(pnt[0]) * mul, int(pnt[1]) * mul], dtype=np.int64) for pnt in (f, g, h)]
+            try:
+                vi = float(mg.menger_curvature(*ai))
+                vf = float(mg.menger_curvature(*[a_.astype(float) for a_ in ai]))
+            except Exception as e:
+                ctx.fail('predicate', 'menger-completes-on-integer-dtype', 'menger.menger_curvature', dict(case, multiplier=mul), repr(e)[:120])
+                break
+            if abs(vi - vf) > 1e-9 * (abs(vi) + abs(vf)) + 1e-300:
+                ctx.fail('predicate', 'menger-integer-dtype-gives-the-same-curvature', 'menger.menger_curvature', dict(case, multiplier=mul), dict(int64=vi, float64=vf))
+                break
     cr = (g[0] - f[0]) * (h[1] - g[1]) - (g[1] - f[1]) * (h[0] - g[0])
     if cr == 0:
         ctx.tag('collinear-triple')
@@ -194,7 +209,17 @@ def run(ctx):
         pts = np.array([gp(rng, 24, q) for _ in range(k)], float)
         if rng.random() < 0.3:
             pts[0] = a
-        distances(ctx, pts, a, b, 'segment' if not np.all(a == b) else 'degenerate-a==b')
+        fam = 'segment' if not np.all(a == b) else 'degenerate-a==b'
+        u = rng.random()
+        if u < 0.1:
+            a, b, pts, fam = a * 2.0 ** -30, b * 2.0 ** -30, pts * 2.0 ** -30, fam + '@tiny30'      # ~1e-9 scale
+        elif u < 0.2:
+            a, b, pts, fam = a + 2.0 ** 30, b + 2.0 ** 30, pts + 2.0 ** 30, fam + '@off30'          # large common offset, small spread
+        elif u < 0.26:
+            a, b, pts, fam = a * 2.0 ** 30, b * 2.0 ** 30, pts * 2.0 ** 30, fam + '@huge30'
+        elif u < 0.3:
+            a, b, pts, fam = a * 64 + 2.0 ** 30, b * 64 + 2.0 ** 30, pts * 64 + 2.0 ** 30, fam + '@off30x64'  # |a-b| ~ 1e3 at offset 1e9
+        distances(ctx, pts, a, b, fam)
     for _ in range(150 if quick else 3000):
         n = rng.randrange(3, 20)
         x = np.cumsum([rng.choice([1, 2, 3]) for _ in range(n)]).astype(float)
@@ -222,7 +247,13 @@ def run(ctx):
             h = [g[0] + k * (g[0] - f[0]), g[1] + k * (g[1] - f[1])]
         if f == g or g == h or f == h:
             continue
-        triple(ctx, f, g, h, 'triples')
+        fam = 'triples'
+        u = rng.random()
+        if u < 0.3:
+            sc, off, tag = rng.choice([(2.0 ** -30, 0.0, '@tiny30'), (2.0 ** -20, 0.0, '@tiny20'), (2.0 ** 20, 0.0, '@huge20'), (1.0, 2.0 ** 30, '@off30'), (2.0 ** -10, 2.0 ** 20, '@off20')])
+            f, g, h = ([c * sc + off for c in pnt] for pnt in (f, g, h))
+            fam += tag
+        triple(ctx, f, g, h, fam)
     for _ in range(200 if quick else 4000):
         n = rng.randrange(1, 14)
         v = [rng.randrange(0, 12) * 0.25 for _ in range(n)] if rng.random() < 0.4 else rng.sample([i * 0.5 for i in range(40)], n)
